@@ -266,6 +266,21 @@ fn gen_case(u: &mut Choices, sz: Size) -> (Case, bool) {
             }
         }
     }
+    // values that are the same number in different spellings, or round to the same double, on
+    // resources of one type (a sort that compares them as numbers leaves their order to chance)
+    if let V::Map(m) = &mut doc {
+        if let Some((_, V::Map(res))) = m.iter_mut().find(|(k, _)| k == "Resources") {
+            for (i, (_, r)) in res.iter_mut().enumerate() {
+                if let V::Map(rm) = r {
+                    if let Some((_, V::Map(pm))) = rm.iter_mut().find(|(k, _)| k == "Properties") {
+                        pm.retain(|(k, _)| k != "Sz" && k != "Big");
+                        pm.push(("Sz".into(), [V::Int(50), V::Float(50.0), V::Int(500), V::Float(500.0)][i % 4].clone()));
+                        pm.push(("Big".into(), V::Int([9007199254740992i64, 9007199254740993, 9007199254740994][i % 3])));
+                    }
+                }
+            }
+        }
+    }
     let mut sz2 = sz;
     sz2.rules = 4;
     let mut file = gen_wide_file(u, &doc, sz2, true);
